@@ -594,3 +594,61 @@ Print Assumptions C03_oe_mint_count_query.
 Print Assumptions C03_oe_never_exceeds_public.
 Print Assumptions C03_oe_never_exceeds_whitelist.
 Print Assumptions C03_oe_never_exceeds_stage.
+
+(* =====================================================================================
+   Migrations inside histories.  `minter_migrate` / `o_minter_migrate` (model/MinterMigrate.v)
+   are the minters' `migrate` entry points as functions on the sale-world state; they are
+   not handler operations, so `step` / `ostep` and the theorems above are untouched.  The
+   sale-world correspondence runs migrations inside its histories (SaleCorr.IMigrate /
+   SaleOeCorr.OIMigrate), from stored versions around 3.9.0 and the current version, by the
+   wasm admin and by strangers.
+   ===================================================================================== *)
+From LP Require Import MinterMigrate MinterMigrateProofs.
+
+(* an accepted migration leaves every per-address and per-stage counter and the
+   per-address limit as they were *)
+Theorem C03_migrate_keeps_counters : forall vr now name_ok stored admin s s',
+  minter_migrate vr now name_ok stored admin s = Ok s' ->
+  s_public s' = s_public s /\ s_wl s' = s_wl s /\ s_fs s' = s_fs s /\ s_ss s' = s_ss s /\ s_ts s' = s_ts s /\
+  s_fs_count s' = s_fs_count s /\ s_ss_count s' = s_ss_count s /\ s_ts_count s' = s_ts_count s /\
+  s_pal s' = s_pal s.
+Proof. exact migrate_counters. Qed.
+
+(* the counting theorems over histories that interleave calls and migrations: tally_m is
+   `tally` with migrations contributing nothing *)
+Theorem C03_tally_with_migrates_spelled_out : forall vr evf s it r acc,
+  tally_m vr evf s [] acc = acc /\
+  tally_m vr evf s (it :: r) acc =
+    match it with
+    | HCall c =>
+        match step vr s (c_env c) (c_fp c) (c_wv c) (c_op c) with
+        | Ok (s', _) => tally_m vr evf s' r (apply_ev (evf s c) acc)
+        | Err => tally_m vr evf s r acc
+        end
+    | HMigrate now name_ok stored admin =>
+        tally_m vr evf (match minter_migrate vr now name_ok stored admin s with Ok s' => s' | Err => s end) r acc
+    end.
+Proof. intros. split; [ reflexivity | destruct it; reflexivity ]. Qed.
+
+Theorem C03_public_count_reported_with_migrates : forall vr a items s,
+  get (s_public (run_m vr s items)) a = tally_m vr (pub_ev a) s items (get (s_public s) a).
+Proof. exact public_count_reported_m. Qed.
+
+Theorem C03_whitelist_count_reported_with_migrates : forall vr a sl items s,
+  get (slot_map (run_m vr s items) sl) a = tally_m vr (wl_ev vr a sl) s items (get (slot_map s sl) a).
+Proof. exact whitelist_count_reported_m. Qed.
+
+Theorem C03_stage_total_reported_with_migrates : forall vr sl items s,
+  is_stage sl = true ->
+  stage_total (run_m vr s items) sl = tally_m vr (stage_ev sl) s items (stage_total s sl).
+Proof. exact stage_total_reported_m. Qed.
+
+Theorem C03_oe_migrate_changes_nothing : forall vr now name_ok stored admin s s',
+  o_minter_migrate vr now name_ok stored admin s = Ok s' -> s' = s.
+Proof. exact o_migrate_id. Qed.
+
+Print Assumptions C03_migrate_keeps_counters.
+Print Assumptions C03_public_count_reported_with_migrates.
+Print Assumptions C03_whitelist_count_reported_with_migrates.
+Print Assumptions C03_stage_total_reported_with_migrates.
+Print Assumptions C03_oe_migrate_changes_nothing.
